@@ -166,6 +166,14 @@ CHECKS = {
             "Sampling, not proof; finds boundary/degenerate-geometry defects unit tests with one generic cloud miss.",
             "Trusts numpy and Python Fractions; states carry plane coordinates in components 0,1; completeness of the pairing is not asserted.",
             "DESIGN.md §4 C19"),
+    "C20": ("exploration",
+            "model-based stateful testing with a fresh-twin model (Hypothesis RuleBasedStateMachine random walks + bounded-exhaustive operation sequences via itertools.product); independent CR3BP reference flow for cross-object checks",
+            "After every operation on a System / LibrationPoint / PeriodicOrbit / CenterManifold (setters, correct with option pools, propagate pools, period changes, degree "
+            "changes, stability queries, pickle / save / load / load_inplace) a NEW object is built from the logical state only and asked the same question; answers must agree "
+            "(1e-9). All operation sequences of length <= 3 (orbit <= 4) over reduced alphabets are enumerated, longer histories are random walks; two objects of different mu share "
+            "the process-wide compiled caches and are compared with an independent reference flow; distinct quantities must not alias; loaded objects pass the same twin test.",
+            "Every comparison is SUT-after-history vs an object rebuilt from the logical state; Manifold objects are not in the alphabet (one compute costs 5-12 s); histories are shrunk by a module-level greedy shrinker.",
+            "DESIGN.md §4 C20"),
 }
 
 NOT_YET = "check not built yet in this session (in progress; see DESIGN.md §4 for the planned generated-input check)"
